@@ -625,9 +625,93 @@ pub fn step_dddmp(s: &mut Mach, ins: &Instr, model: &mut Model, ctx: &mut RunCtx
                 s.scratch.extend(hs);
             }
         }
+        // over-long 7-bit integer in the binary node section: a continuation group with a set
+        // bit followed by nine empty continuation groups in front of an integer makes its
+        // value >= 2^70, which no usize holds - the importer must refuse the file
+        let ints = binary_integer_offsets(&file);
+        if !ints.is_empty() {
+            ctx.stats.bump("probe.dddmp_binary_integers_located");
+        }
+        for _ in 0..2 {
+            if ints.is_empty() || !budget_ok(s) {
+                break;
+            }
+            let pos = ints[rng.below(ints.len() as u64) as usize];
+            let mut m = file[..pos].to_vec();
+            m.push(0x03);
+            m.extend_from_slice(&[0x01; 9]);
+            m.extend_from_slice(&file[pos..]);
+            ctx.stats.bump("fault.io_overlong_integer");
+            let mut f5 = 0;
+            if let Ok((hs, _)) = import_bytes(s, &m, RPlan::Plain, &mut f5) {
+                ctx.violate(&["C15"], "overlong-integer-accepted", format!("{:?}: binary file with an integer >= 2^70 at byte {} of {} was accepted with {} roots", ins, pos, file.len(), hs.len()));
+                break;
+            }
+        }
         let after = s.mref.with_manager_shared(|m| m.num_inner_nodes());
         ctx.stats.add("probe.dddmp_garbage_nodes", (after.saturating_sub(before)) as u64);
     }
     true
 }
 
+
+/// Independent reading of the binary node section of a DDDMP file (written from the format
+/// description, shares nothing with the importer): the offsets at which a 7-bit encoded
+/// integer starts. Empty for ASCII files and for anything this reader does not follow to
+/// the `.end` line.
+fn binary_integer_offsets(file: &[u8]) -> Vec<usize> {
+    fn find(h: &[u8], n: &[u8]) -> Option<usize> {
+        h.windows(n.len()).position(|w| w == n)
+    }
+    let Some(nodes_at) = find(file, b"\n.nodes\n") else { return Vec::new() };
+    let header = &file[..nodes_at + 1];
+    if find(header, b"\n.mode B").is_none() {
+        return Vec::new();
+    }
+    let Some(nn) = find(header, b"\n.nnodes ") else { return Vec::new() };
+    let mut nnodes = 0usize;
+    for &b in &header[nn + 9..] {
+        if b.is_ascii_digit() {
+            nnodes = nnodes * 10 + (b - b'0') as usize;
+        } else {
+            break;
+        }
+    }
+    let mut pos = nodes_at + 8;
+    let unescaped = |pos: &mut usize| -> Option<u8> {
+        let b = *file.get(*pos)?;
+        *pos += 1;
+        if b != 0 {
+            return Some(b);
+        }
+        let c = *file.get(*pos)?;
+        *pos += 1;
+        match c {
+            0 => Some(0x00),
+            1 => Some(0x0a),
+            2 => Some(0x0d),
+            3 => Some(0x1a),
+            _ => None,
+        }
+    };
+    let mut out = Vec::new();
+    for _ in 0..nnodes {
+        let Some(code) = unescaped(&mut pos) else { return Vec::new() };
+        for part in [(code >> 5) & 3, (code >> 3) & 3, code & 3] {
+            if part == 1 || part == 2 {
+                out.push(pos);
+                loop {
+                    let Some(b) = unescaped(&mut pos) else { return Vec::new() };
+                    if b & 1 == 0 {
+                        break;
+                    }
+                }
+            }
+        }
+    }
+    if file[pos..].starts_with(b".end") {
+        out
+    } else {
+        Vec::new()
+    }
+}
